@@ -1,2 +1,2 @@
 // module-level hints for the extracted code (trusted axioms declared in std_specs.rs)
-broadcast use {axiom_bool_bitand, axiom_bool_bitor, axiom_pattern_string, group_f64, axiom_f64_obeys, vstd::std_specs::btree::group_btree_axioms, axiom_string_key_model};
+broadcast use {axiom_string_of, axiom_bool_bitand, axiom_bool_bitor, axiom_pattern_string, group_f64, axiom_f64_obeys, vstd::std_specs::btree::group_btree_axioms, axiom_string_key_model};
